@@ -25,6 +25,7 @@ ASSUMPTIONS = [
     "disabled lanes of a masked LOAD are not judged (the statement constrains memory accesses, not the register contents of disabled lanes)",
     "signed integer overflow, integer division by zero and min/-1 have no scalar C++ result: such lanes are not judged",
     "SIMDVector has no comparison operators, cast specialisations or documented shift semantics in this tree: nothing to enumerate for them",
+    "complex vector types: integer-valued lanes (exact +,-,*,fmadd, real/imag/norm/sum/dot/reverse), division within 16u of the exact quotient, all 2^Size masks",
 ]
 
 ABIS = ["scalar", "sse", "avx", "avx512"]
@@ -86,6 +87,11 @@ def cases(tier, cfg):
                     bound = "1.0/16384.0*1.0001" if abi == "avx512" else "1.5/4096.0"
                     out.append(Case(f"C08/sweep32_{names[op]}[{ident}]", f"c08::g_sweep32<{V}>(fx, {op}, {0 if full else 1}, {bound});",
                                     route=f"{kind}.sweep32.{'full' if full else 'lattice24'}", cost=13.0 if full else 2.0))
+    # complex vector types (native specialisations only; the generic fallback has no split-register layout to check)
+    if base:
+        for t, rt in (("c32", "f32"), ("c64", "f64")):
+            for abi in ["scalar"] + HAVE[cfg.isa][rt]:
+                out.append(Case(f"C08/complex[{t}|abi={abi}]", f"c08::g_complex<{_vec(t, abi)}>(fx);", route="native.complex", cost=3.0))
     return out
 
 
